@@ -303,9 +303,9 @@ Ancestors == {Empty("T"), Dense,
               [Empty("P") EXCEPT !.ch = <<[nm |-> 1, ct |-> SomeT(5), on |-> 1], [nm |-> 0, ct |-> SomeT(1), on |-> 2]>>],
               [Empty("A") EXCEPT !.act = SomeT(5)]}
 Cm(k, a, b) == [k |-> k, a |-> a, b |-> b]
-MCTerms == {<<>>, <<T1(Cm("float", 0, 1))>>, <<T1(Cm("float", 1, 0))>>, <<T1(Cm("time", 1, 0))>>, <<T1(Cm("dur", 5, 0))>>}
+MCTerms == {<<>>, <<T1(Cm("float", 0, 1))>>, <<T1(Cm("float", 1, 0)), T1(Cm("time", 1, 0))>>, <<T1(Cm("dur", 5, 0))>>}
            \cup (IF Scope >= 2 THEN
-                 {<<T1(Cm("float", 0, 0))>>, <<T1(Cm("float", 0, 8))>>, <<T1(Cm("time", 0, 0))>>, <<T1(Cm("float", 2, 2))>>, <<T1(Cm("time", 7, 0))>>, <<T1(Cm("dur", 0, 0))>>,
+                 {<<T1(Cm("float", 1, 0))>>, <<T1(Cm("time", 1, 0))>>, <<T1(Cm("float", 0, 0))>>, <<T1(Cm("float", 0, 8))>>, <<T1(Cm("time", 0, 0))>>, <<T1(Cm("float", 2, 2))>>, <<T1(Cm("time", 7, 0))>>, <<T1(Cm("dur", 0, 0))>>,
                   <<T1(Cm("float", 0, 1)), T1(Cm("time", 1, 0))>>,
                   <<[op |-> "or", cs |-> <<Cm("float", 0, 1), Cm("float", 1, 0)>>]>>,
                   <<[op |-> "and", cs |-> <<Cm("float", 0, 2), Cm("float", 0, 1), Cm("dur", 1, 0)>>]>>,
@@ -314,7 +314,10 @@ MCTerms == {<<>>, <<T1(Cm("float", 0, 1))>>, <<T1(Cm("float", 1, 0))>>, <<T1(Cm(
 
 \* two stages so that TLC's workers share the enumeration
 MCAnc == IF Scope >= 2 THEN Ancestors ELSE Ancestors \ {Empty("T")}
-MCInit == c \in UNION { [st : {0}, a : {a}, x : Mut1(a), y : {a}, m1 : {<<>>}, m2 : {<<>>}] : a \in MCAnc }
+\* quick domain: x varies in the fields that carry compared kinds (y still varies in all)
+MCX(a) == IF Scope >= 2 THEN Mut1(a)
+          ELSE { x \in Mut1(a) : x.i = a.i /\ x.s = a.s /\ x.u = a.u /\ x.mw = a.mw /\ x.db = a.db /\ x.mf = a.mf }
+MCInit == c \in UNION { [st : {0}, a : {a}, x : MCX(a), y : {a}, m1 : {<<>>}, m2 : {<<>>}] : a \in MCAnc }
 MCM2 == IF Scope >= 2 THEN {<<>>, <<T1(Cm("float", 0, 1))>>, <<T1(Cm("float", 1, 0)), T1(Cm("time", 1, 0))>>}
         ELSE {<<T1(Cm("float", 0, 1))>>}
 MCNext == /\ c.st = 0
